@@ -91,3 +91,11 @@ impl Store {
             .expect("Failed to receive reply to NotifyRead command from store")
     }
 }
+
+#[cfg(hotstuff_verif)]
+impl Store {
+    /// Verification-only: a handle whose commands are served by the verification harness.
+    pub fn verif_from_channel(channel: Sender<StoreCommand>) -> Self {
+        Self { channel }
+    }
+}
